@@ -218,6 +218,8 @@ class ModuleEnv:
                         eng.ev(a, st)
                     return VUnknown(f'call of {fv.py[1]} (no contract)')
                 if tag == 'class':
+                    if f'{fv.py[1]}.__raw__' in self.reg:      # constructor contract
+                        return self.apply_contract(f'{fv.py[1]}.__raw__', node, eng, st)
                     args = [eng.ev(a, st) for a in node.args]
                     return VConst(('instance', fv.py[1]))
             if f.id in self.reg:
@@ -483,7 +485,7 @@ class ModuleEnv:
         for n in names:
             if n in psorts:
                 try:
-                    bind[n] = coerce(bind[n], psorts[n])
+                    bind[n] = eng.narrow(bind[n], psorts[n], st, node, what=n) if not st.spec else coerce(bind[n], psorts[n])
                 except Unsupported:
                     if not c.get('loose'):
                         raise
